@@ -38,7 +38,9 @@ impl<const CAP: usize> RecordMaybeUninit<CAP> {
     pub unsafe fn write<T>(&mut self, offset: usize, t: T) {
         #[cfg(truc_verif)]
         self.verif_access::<T>(offset, verif::Access::Write);
-        std::ptr::write((self.data.as_mut_ptr().add(offset) as *mut u8).cast(), t);
+        // Records are filled while they are still plain byte buffers (alignment 1): the destination
+        // is only known to be aligned once the buffer is wrapped in the aligned record type.
+        std::ptr::write_unaligned((self.data.as_mut_ptr().add(offset) as *mut u8).cast(), t);
     }
 
     /// Gets a reference to object of type `T` from the record at offset `offset`.
